@@ -77,9 +77,12 @@ void tuner_case(vt::Rng& rng, int64_t icase)
     std::vector<int64_t> bad;
     for (const auto n : dims)
     {
-        bad.push_back(std::clamp<int64_t>(n / 2 + rng.range(-1, 1), 0, n - 1));
+        // the non-finite point: near the centre (visited early), at a corner, or anywhere
+        const auto where = rng.range(0, 2);
+        bad.push_back(where == 0 ? std::clamp<int64_t>(n / 2 + rng.range(-1, 1), 0, n - 1) : where == 1 ? (rng.coin() ? 0 : n - 1) : rng.range(0, n - 1));
     }
     const auto salt = rng.next();
+    const auto real_valued = rng.coin(1, 3);
     const auto F    = [&](const std::vector<int64_t>& p) -> double
     {
         if (bad_on && p == bad)
@@ -93,13 +96,14 @@ void tuner_case(vt::Rng& rng, int64_t icase)
             dist += std::abs(p[i] - corner[i]);
             bowl += (p[i] - dims[i] / 3) * (p[i] - dims[i] / 3);
         }
+        const auto affine = [&](const double v) { return real_valued ? (0.375 * v - 1.25) : v; }; // negative / non-integer values
         switch (kind)
         {
-        case 0: return static_cast<double>((h * 2654435761LL >> 7) % 4);                  // random with many ties
-        case 1: return 7.0;                                                                // plateau
-        case 2: return static_cast<double>(dist);                                          // minimum at a corner
-        case 3: return static_cast<double>(bowl);                                          // convex bowl
-        default: return static_cast<double>(std::min<int64_t>(dist, 2));                   // plateau with a well at a corner
+        case 0: return affine(static_cast<double>((h * 2654435761LL >> 7) % 4));                  // random with many ties
+        case 1: return affine(7.0);                                                                // plateau
+        case 2: return affine(static_cast<double>(dist));                                          // minimum at a corner
+        case 3: return affine(static_cast<double>(bowl));                                          // convex bowl
+        default: return affine(static_cast<double>(std::min<int64_t>(dist, 2)));                   // plateau with a well at a corner
         }
     };
 
